@@ -150,7 +150,7 @@ var Programs = map[string]string{
 	// accepts value, does nothing
 	"sink": "STOP",
 	// returns block context: NUMBER, TIMESTAMP, COINBASE, GASPRICE, CHAINID, ORIGIN
-	"context": "NUMBER 0 MSTORE TIMESTAMP 32 MSTORE COINBASE 64 MSTORE GASPRICE 96 MSTORE CHAINID 128 MSTORE ORIGIN 160 MSTORE GASLIMIT 192 MSTORE 224 0 RETURN",
+	"context": "NUMBER 0 MSTORE TIMESTAMP 32 MSTORE COINBASE 64 MSTORE GASPRICE 96 MSTORE CHAINID 128 MSTORE ORIGIN 160 MSTORE GASLIMIT 192 MSTORE DIFFICULTY 224 MSTORE CALLER 256 MSTORE ADDRESS 288 MSTORE CALLVALUE 320 MSTORE 352 0 RETURN",
 }
 
 // CreatorRuntime builds the "creator" template: CREATE(value, init of counter), store address, call it.
